@@ -227,7 +227,7 @@ def run(ctx):
     for ops in seqs(lv7, 4 if ctx.quick else 5, 0):
         for wf in (0, 1):
             cw_cases.append((0, 2, 4, wf, ops))
-    for ops in seqs((-1, 0, 1, 2, 3), 4, 1):
+    for ops in seqs((-1, 0, 1, 2, 3), 4, 0):
         cw_cases.append((0, 2, 2, 1, ops))   # cap == interface
         cw_cases.append((0, 0, 2, 1, ops))   # ensemble [0+]: middle == left
         cw_cases.append((3, 2, 1, 1, ops))   # i0 > i2 → assertion
